@@ -770,6 +770,9 @@ func checkC10(c *Ctx) {
 	c.fbpSupport()
 	c.normalizeTransfer()
 	c.compareTipIndexesRule()
+	c.Decides("COUNT: the number of trees by which TBE divides (given to NormalizeTransferDistancesByDepth / ReformatAvgDistance) is a local counter of TBE starting at 0 and incremented exactly once per bootstrap tree taken from the channel")
+	c.tbeCount("COUNT")
+	c.Floor("COUNT", 2)
 	c.Floor("ERRFLOW", 6)
 	c.Floor("LF", 4)
 }
